@@ -28,7 +28,7 @@ SEPS = ("://", ":", ":/", "")
 USERINFO = ("", "u@", "u:p@")
 HOSTS = ("h.example", "H.Example", "10.1.2.3", "[::1]", "[fe80::1%25eth0]", "")
 PORTS = ("", ":", ":1", ":8080", ":65535", ":65536", ":x", ":0")
-PATHS = ("", "/", "/a/b", "/a b")
+PATHS = ("", "/", "/a/b", "/a b", "/a;b=1", "/;")
 QUERIES = ("", "?", "?q=1", "?a?b")
 
 
